@@ -113,6 +113,17 @@ func c19Doc(fam string, n int) string {
 			fmt.Fprintf(&sb, "fragment H%d on Query { c ...F%d }\n", i, i+1)
 		}
 		fmt.Fprintf(&sb, "fragment F%d on Query { a }\n", n)
+	case "twinchain":
+		// one response key selected twice at every level, both occurrences spreading the SAME next fragment:
+		// merged once per level, not once per path
+		sb.WriteString("{ node { child { ...F1 } child { ...F1 } } }\n")
+		for i := 1; i <= n; i++ {
+			if i < n {
+				fmt.Fprintf(&sb, "fragment F%d on Node { child { ...F%d } child { ...F%d } }\n", i, i+1, i+1)
+			} else {
+				fmt.Fprintf(&sb, "fragment F%d on Node { x }\n", i)
+			}
+		}
 	case "wide":
 		sb.WriteString("{")
 		for i := 0; i < n; i++ {
@@ -199,7 +210,7 @@ func init() {
 			}
 		}
 		schema, _ := c19AbstractSchema(2)
-		for _, fam := range []string{"chain", "fan", "mesh", "wide", "exclchain", "diamond"} {
+		for _, fam := range []string{"chain", "fan", "mesh", "wide", "exclchain", "diamond", "twinchain"} {
 			for n := 1; n <= maxN; n++ {
 				doc, err := parseDoc(c19Doc(fam, n))
 				if err != nil {
@@ -215,7 +226,24 @@ func init() {
 				}
 				emit(fam+"_validate", n, 1, work)
 				stop := work > giveUp
-				if fam == "chain" || fam == "diamond" {
+				if fam == "twinchain" {
+				// abstract fields are planned lazily, per runtime type, while the request runs
+				graphql.VerifResetCounters()
+				plan, perr := graphql.PlanQuery(&schema, doc, "")
+				if perr != nil {
+					fmt.Fprintln(os.Stderr, "infra: PlanQuery:", perr)
+					return 2
+				}
+				res := graphql.ExecutePlan(plan, graphql.ExecuteParams{Schema: schema})
+				if len(res.Errors) > 0 {
+					fmt.Fprintln(os.Stderr, "infra: ExecutePlan:", res.Errors[0].Message)
+					return 2
+				}
+				pw := sumCounters(0, 1)
+				emit(fam+"_planexec", n, 1, pw)
+				stop = stop || pw > giveUp
+			}
+			if fam == "chain" || fam == "diamond" {
 					graphql.VerifResetCounters()
 					if _, perr := graphql.PlanQuery(&schema, doc, ""); perr != nil {
 						fmt.Fprintln(os.Stderr, "infra: PlanQuery:", perr)
